@@ -321,14 +321,28 @@ func (p *Prog) zeroingFns() map[*ssa.Function]bool {
 			}
 		}
 	}
-	for round := 0; round < 2; round++ {
+	// an archetype method (or a closure inside one) that calls a zeroing archetype method / closure; a closure passed
+	// to a higher-order helper counts at the call that passes it (Callees hoists it there)
+	archLike := func(f *ssa.Function) bool {
+		for f != nil {
+			if typeName(recvType(f)) == "archetype" {
+				return true
+			}
+			f = f.Parent()
+		}
+		return false
+	}
+	for round := 0; round < 4; round++ {
 		for _, fn := range p.Funcs {
-			if out[fn] {
+			if out[fn] || !archLike(fn) {
 				continue
 			}
 			for _, site := range callsIn(fn) {
-				if sc := site.Common().StaticCallee(); sc != nil && out[sc] && typeName(recvType(sc)) == "archetype" && typeName(recvType(fn)) == "archetype" {
-					out[fn] = true
+				callees, _ := p.Callees(site)
+				for _, sc := range callees {
+					if out[sc] && archLike(sc) {
+						out[fn] = true
+					}
 				}
 			}
 		}
@@ -375,9 +389,11 @@ func c06r3(p *Prog, r *Reporter) {
 					if !ok {
 						return false
 					}
-					sc := c.Common().StaticCallee()
-					if sc != nil && zero[sc] {
-						return true
+					callees, _ := p.Callees(c)
+					for _, sc := range callees {
+						if zero[sc] {
+							return true
+						}
 					}
 					return isZeroingCall(c)
 				}}
@@ -460,7 +476,7 @@ func c06r4(p *Prog, r *Reporter) {
 	}
 	isFlagSet := func(site ssa.CallInstruction, val bool) (ssa.Value, bool) {
 		sc := site.Common().StaticCallee()
-		if sc == nil || sc.Name() != "Set" || typeName(recvType(sc)) != "bitSet" || len(site.Common().Args) != 3 {
+		if sc == nil || cname(sc) != "Set" || typeName(recvType(sc)) != "bitSet" || len(site.Common().Args) != 3 {
 			return nil, false
 		}
 		if _, fld, _, ok := loadedField(site.Common().Args[0]); !ok || fld != "targetEntities" {
@@ -496,7 +512,7 @@ func c06r4(p *Prog, r *Reporter) {
 		allocs := false
 		for _, site := range callsIn(fn) {
 			if sc := site.Common().StaticCallee(); sc != nil {
-				switch sc.Name() {
+				switch cname(sc) {
 				case "Alloc", "AllocN", "createEntity", "createEntities":
 					allocs = true
 				}
@@ -524,7 +540,7 @@ func c06r4(p *Prog, r *Reporter) {
 				if !ok {
 					continue
 				}
-				if c := callOf(atom); c != nil && c.Common().StaticCallee() != nil && c.Common().StaticCallee().Name() == "IsZero" {
+				if c := callOf(atom); c != nil && c.Common().StaticCallee() != nil && cname(c.Common().StaticCallee()) == "IsZero" {
 					if originOf(c.Common().Args[0]) == cell && pr.Succs[1-trueSucc] == b {
 						guarded = true
 					}
@@ -554,7 +570,7 @@ func c06r4(p *Prog, r *Reporter) {
 					continue
 				}
 				c := callOf(atom)
-				if c == nil || c.Common().StaticCallee() == nil || c.Common().StaticCallee().Name() != "Get" || typeName(recvType(c.Common().StaticCallee())) != "bitSet" {
+				if c == nil || c.Common().StaticCallee() == nil || cname(c.Common().StaticCallee()) != "Get" || typeName(recvType(c.Common().StaticCallee())) != "bitSet" {
 					continue
 				}
 				idc := idOf(c.Common().Args[1])
@@ -682,7 +698,7 @@ func reaches(from, to *ssa.BasicBlock) bool {
 
 // isZeroingCall: reflect.Value.SetZero, or a call that copies from a node's zeroPointer.
 func isZeroingCall(site ssa.CallInstruction) bool {
-	if sc := site.Common().StaticCallee(); sc != nil && sc.Name() == "SetZero" && sc.Pkg != nil && sc.Pkg.Pkg.Path() == "reflect" {
+	if sc := site.Common().StaticCallee(); sc != nil && cname(sc) == "SetZero" && sc.Pkg != nil && sc.Pkg.Pkg.Path() == "reflect" {
 		return true
 	}
 	for _, a := range site.Common().Args {
